@@ -207,4 +207,48 @@ theorem dictEquals_refl (close : A → A → Bool) (hc : ∀ a, close a a = true
     rw [this]; exact hc _
   · left; exact e
 
+/-! ### saving is a function of the current contents only -/
+
+theorem filterMap_eq_map_of_some {α β : Type} (h : α → Option β) (g : α → β) :
+    ∀ l : List α, (∀ p ∈ l, h p = some (g p)) → l.filterMap h = l.map g
+  | [], _ => rfl
+  | a :: t, hl => by
+    rw [List.filterMap_cons, hl a List.mem_cons_self, List.map_cons,
+      filterMap_eq_map_of_some h g t (fun p hp => hl p (List.mem_cons_of_mem _ hp))]
+
+
+section save
+variable {B : Type} (ext : Name → Name)
+
+theorem saveTo_other (seed : Name) (x : Name) : ∀ (cont : List (Name × FileObj B)) (disk : List (Name × B)),
+    (∀ q ∈ cont, npzPath ext seed q.1 ≠ x) → dirGet (saveTo ext seed cont disk) x = dirGet disk x
+  | [], _, _ => rfl
+  | p :: t, disk, h => by
+    unfold saveTo
+    rw [List.foldl_cons]
+    have := saveTo_other seed x t ((npzPath ext seed p.1, p.2.content) :: disk)
+      (fun q hq => h q (List.mem_cons_of_mem _ hq))
+    unfold saveTo at this
+    rw [this, dirGet_cons, if_neg (h p List.mem_cons_self)]
+
+theorem saveTo_get (seed : Name) : ∀ (cont : List (Name × FileObj B)) (disk : List (Name × B)),
+    (cont.map (fun p => npzPath ext seed p.1)).Nodup → ∀ p ∈ cont,
+    dirGet (saveTo ext seed cont disk) (npzPath ext seed p.1) = some p.2.content
+  | [], _, _, p, hp => by simp at hp
+  | q :: t, disk, hnd, p, hp => by
+    rw [List.map_cons, List.nodup_cons] at hnd
+    rcases List.mem_cons.mp hp with rfl | hp
+    · have hne : ∀ r ∈ t, npzPath ext seed r.1 ≠ npzPath ext seed p.1 := by
+        intro r hr e
+        exact hnd.1 (List.mem_map.2 ⟨r, hr, e⟩)
+      have := saveTo_other ext seed (npzPath ext seed p.1) t ((npzPath ext seed p.1, p.2.content) :: disk) hne
+      unfold saveTo at this ⊢
+      rw [List.foldl_cons, this, dirGet_cons, if_pos rfl]
+    · have := saveTo_get seed t ((npzPath ext seed q.1, q.2.content) :: disk) hnd.2 p hp
+      unfold saveTo at this ⊢
+      rw [List.foldl_cons]
+      exact this
+
+end save
+
 end WB.C19
